@@ -173,14 +173,15 @@ func (d *Device) handleABSEvent(ie *input.InputEvent) {
 		}
 	}
 
+	// the boundary itself belongs to the deadzone: with a deadzone of 1.0 the end stop would otherwise be 0/0
 	if value < 0 {
-		if value > -deadzone {
+		if value >= -deadzone {
 			value = 0
 		} else {
 			value = (value + deadzone) / (1.0 - deadzone)
 		}
 	} else {
-		if value < deadzone {
+		if value <= deadzone {
 			value = 0
 		} else {
 			value = (value - deadzone) / (1.0 - deadzone)
